@@ -64,4 +64,23 @@ theorem small_window_routes_rle : ∀ wb level strategy, wb < 12 → level < 11 
 example : ParamsOxide_max_match_dist 12 0 = 4096 := by decide +kernel
 example : cinfo 0 12 = 4 := by decide +kernel
 
+/-- Whatever window_bits byte is stored, the enforced distance bound lies between 256 (the smallest
+    window a zlib header can declare) and 32 768 (the DEFLATE maximum). -/
+theorem bound_range : ∀ wb, wb < 256 →
+    256 ≤ ParamsOxide_max_match_dist (Int.ofNat wb) 0 ∧ ParamsOxide_max_match_dist (Int.ofNat wb) 0 ≤ 32768 := by
+  intro wb hw
+  rw [bound_is_declared wb hw]
+  have h1 : 2 ^ 8 ≤ 2 ^ (min (max wb 8) 15) := Nat.pow_le_pow_right (by decide) (by omega)
+  have h2 : 2 ^ (min (max wb 8) 15) ≤ 2 ^ 15 := Nat.pow_le_pow_right (by decide) (by omega)
+  constructor
+  · exact Int.ofNat_le.mpr h1
+  · exact Int.ofNat_le.mpr h2
+
+/-- The bound never shrinks when window_bits grows. -/
+theorem bound_monotone : ∀ a b, a ≤ b → b < 256 →
+    ParamsOxide_max_match_dist (Int.ofNat a) 0 ≤ ParamsOxide_max_match_dist (Int.ofNat b) 0 := by
+  intro a b hab hb
+  rw [bound_is_declared a (by omega), bound_is_declared b hb]
+  exact Int.ofNat_le.mpr (Nat.pow_le_pow_right (by decide) (by omega))
+
 end C11
